@@ -82,6 +82,8 @@ func (e C17Env) EqAny(a, b interface{}) bool {
 	e.lg("EqAny(%v,%v)", a, b)
 	return (a == nil) != (b == nil)
 }
+// ModV overloads % on two ints - operands the built-in % accepts too - with a result of another type
+func (e C17Env) ModV(a, b int) C17V { e.lg("ModV(%d,%d)", a, b); return C17V{a*10 + b} }
 func (e C17Env) LtV(a, b C17V) bool { e.lg("LtV(%d,%d)", a.N, b.N); return a.N < b.N }
 func (e C17Env) Wrap(v C17V) C17V   { e.lg("Wrap(%d)", v.N); return C17V{v.N * 2} }
 func (e C17Env) NoResult(a, b C17V) {}
@@ -107,6 +109,7 @@ type c17Cand struct {
 var c17Cands = map[string][]c17Cand{
 	"+":  {{"AddV", c17V, c17V}, {"AddV2", c17V, c17V}, {"Fld", c17V, c17V}, {"CatT", c17T, c17T}},
 	"-":  {{"SubV", c17V, c17V}},
+	"%":  {{"ModV", c17I, c17I}},
 	"*":  {{"MulVI", c17V, c17I}},
 	"<":  {{"LtV", c17V, c17V}},
 	"==": {{"EqIS", c17I, c17S}, {"EqTS", c17T, c17S}, {"EqStr", "Stringer", c17S}, {"EqStrR", c17S, "Stringer"}, {"EqStrs", "Stringer", "Stringer"}, {"EqAny", "any", "any"}},
@@ -185,6 +188,9 @@ func (g *c17Gen) gen(ty string, d int) *c17X {
 		case 3:
 			return bin("-", c17V, c17V)
 		case 4:
+			if g.pick(3, "modv") == 0 {
+				return bin("%", c17I, c17I) // a V only through the overload ModV (the built-in % would give an int)
+			}
 			return bin("*", c17V, c17I)
 		case 5:
 			return &c17X{K: "cond", Ty: ty, A: []*c17X{g.gen(c17B, d-1), g.gen(c17V, d-1), g.gen(c17V, d-1)}}
@@ -362,7 +368,7 @@ func (c *c17Case) env(log *[]string) C17Env {
 
 func c17Options(table map[string][]string) []expr.Option {
 	var opts []expr.Option
-	for _, op := range []string{"+", "-", "*", "<", "=="} {
+	for _, op := range []string{"+", "-", "*", "<", "==", "%"} {
 		if fns := table[op]; len(fns) > 0 {
 			opts = append(opts, expr.Operator(op, fns...))
 		}
@@ -469,7 +475,7 @@ func genC17(t *rapid.T, cfg *core.Config) *core.Case {
 		}
 	}
 	k.Table = map[string][]string{}
-	for _, op := range []string{"+", "-", "*", "<", "=="} {
+	for _, op := range []string{"+", "-", "*", "<", "==", "%"} {
 		var names []string
 		for _, c := range c17Cands[op] {
 			names = append(names, c.fn)
